@@ -206,6 +206,33 @@ func parseGuards(c *Ctx, rule string) {
 	}
 }
 
+// jsonDecodeTarget: the index of the argument cc decodes JSON into — json.Unmarshal's second argument,
+// or the argument a module helper hands on to json.Unmarshal (depth levels of helpers); -1 otherwise.
+func jsonDecodeTarget(p *Program, cc *ssa.CallCommon, depth int) int {
+	if isCallToFunc(cc, "encoding/json", "Unmarshal") {
+		return 1
+	}
+	g := cc.StaticCallee()
+	if depth <= 0 || g == nil || g.Pkg == nil || !p.inModule(g.Pkg.Pkg.Path()) || len(g.Blocks) == 0 {
+		return -1
+	}
+	out := -1
+	eachInstr(g, func(in ssa.Instruction) {
+		c2 := callCommon(in)
+		if c2 == nil {
+			return
+		}
+		k := jsonDecodeTarget(p, c2, depth-1)
+		if k < 0 || k >= len(c2.Args) {
+			return
+		}
+		if par, ok := c2.Args[k].(*ssa.Parameter); ok && par.Parent() == g {
+			out = paramIndex(par)
+		}
+	})
+	return out
+}
+
 func decodedAnswers(c *Ctx, rule string) {
 	p := c.P
 	sp := p.SSAPkg[modPkg("client")]
@@ -217,7 +244,11 @@ func decodedAnswers(c *Ctx, rule string) {
 		fn := fn
 		eachInstr(fn, func(in ssa.Instruction) {
 			call, ok := in.(*ssa.Call)
-			if !ok || !isCallToFunc(&call.Call, "encoding/json", "Unmarshal") {
+			if !ok {
+				return
+			}
+			tgtIdx := jsonDecodeTarget(p, &call.Call, 2)
+			if tgtIdx < 0 {
 				return
 			}
 			n++
@@ -269,7 +300,7 @@ func decodedAnswers(c *Ctx, rule string) {
 				}
 			}
 			// (b) the target: &local
-			tgt := call.Call.Args[1]
+			tgt := call.Call.Args[tgtIdx]
 			if mi, ok := tgt.(*ssa.MakeInterface); ok {
 				tgt = mi.X
 			}
